@@ -295,6 +295,7 @@ namespace pika::ensure_started_detail {
                 os.reset();
 
                 predecessor_done = true;
+                PIKA_VERIF_POINT(124, this);
 
                 {
                     // We require taking the lock here to synchronize with
@@ -332,6 +333,7 @@ namespace pika::ensure_started_detail {
                     std::lock_guard<mutex_type> l{mtx};
                 }
 
+                PIKA_VERIF_POINT(125, this);
                 if (continuation)
                 {
                     (*continuation)();
@@ -359,6 +361,7 @@ namespace pika::ensure_started_detail {
                 {
                     // If predecessor_done is false, we have to take the
                     // lock to potentially store the continuation.
+                    PIKA_VERIF_POINT(123, this);
                     std::unique_lock<mutex_type> l{mtx};
 
                     if (predecessor_done)
